@@ -151,6 +151,30 @@ def _width_first(g, atom):
     return None
 
 
+def _fresh_table_from_helper(ci, v):
+    """`self._helper(...)` where every return of the helper yields a local that was created by pd.DataFrame(...) in the helper and
+    is only filled column by column (item / attribute stores) before it is returned: construction, not replacement"""
+    if not (isinstance(v, ast.Call) and isinstance(v.func, ast.Attribute) and isinstance(v.func.value, ast.Name) and v.func.value.id == "self"):
+        return False
+    defs = ci.methods.get(v.func.attr)
+    if not defs:
+        return False
+    h = defs[-1].node
+    rets = [r for r in walk_function(h) if isinstance(r, ast.Return) and r.value is not None]
+    if not rets or not all(isinstance(r.value, ast.Name) for r in rets):
+        return False
+    names = {r.value.id for r in rets}
+    for nm in names:
+        assigns = [s_ for s_ in walk_function(h) if isinstance(s_, ast.Assign) and any(isinstance(t_, ast.Name) and t_.id == nm for t_ in s_.targets)]
+        if len(assigns) != 1 or not (isinstance(assigns[0].value, ast.Call) and call_name(assigns[0].value) in ("pd.DataFrame", "pandas.DataFrame")):
+            return False
+        for c_ in ast.walk(h):
+            if isinstance(c_, ast.Call) and isinstance(c_.func, ast.Attribute) and isinstance(c_.func.value, ast.Name) and c_.func.value.id == nm and \
+                    c_.func.attr in ("sort_index", "sort_values", "reindex", "sample", "reorder_levels", "swaplevel", "reset_index", "set_index", "take"):
+                return False
+    return True
+
+
 def tables_fixed(ctx, ci):
     """Look-up tables are created by DataFrame construction only and never replaced or re-ordered afterwards (shared with
     R-C05-12: the look-ups pair table rows with the load series by position)."""
@@ -164,6 +188,8 @@ def tables_fixed(ctx, ci):
                         v = st.value
                         if isinstance(v, ast.Call) and call_name(v) in ("pd.DataFrame", "pandas.DataFrame"):
                             ctx.holds(fi, st, "%s created by DataFrame construction" % t.attr)
+                        elif _fresh_table_from_helper(ci, v):
+                            ctx.holds(fi, st, "%s created by DataFrame construction in the private helper %s" % (t.attr, v.func.attr))
                         else:
                             ctx.violated(fi, st, "table %s is replaced by %s after its construction: the look-ups pair table rows with "
                                          "the load series by position, so the row order (class x given point order) must not change"
